@@ -17,7 +17,7 @@ def exEnv : Env :=
         sidecar := some (some "R"), derivedKey := some "K2", allowed := ["THEM2"], notAllowed := [] }],
     accounts := [{ key := "A", value := 1000000, expiry := 5000, version := 0 }],
     ourNode := "US", version := 58, minNoDust := 678,
-    premium := fun amt rate dur => amt * rate * dur / 1000000000,
+    premium := floatPremium (fun _ _ _ => 0),
     acctScript := fun k sv e => some s!"acct-{k}-{sv}-{e}",
     fundScript := fun tap a c => some s!"fund-{tap}-{a}-{c}" }
 
